@@ -21,6 +21,16 @@ def mk_portscfg(cfg, multiclient=None):
                     multiclient=multiclient)
 
 
+def selection_snapshot(cfg):
+    """the user's four selection objects as values (wildcard name or sorted names)"""
+    out = []
+    for side in (cfg.provides, cfg.requires):
+        for sel in (side.sts, side.mts):
+            v = sel.value
+            out.append(sorted(v) if isinstance(v, (set, frozenset, list)) else str(v))
+    return out
+
+
 def selections(names):
     """every wildcard and every non-empty subset of names"""
     out = [{'w': 'all'}, {'w': 'none'}, {'w': 'remaining'}]
@@ -150,10 +160,33 @@ class C03(Prop):
                     cfg = getattr(A, h)()
             else:
                 cfg = mk_portscfg(case['cfg'])
+            before = selection_snapshot(cfg)
             m = cfg.match(set(case['prov']), set(case['req']))
         except Exception as e:  # noqa
             return {'err': err_tag(e)}
-        return {'ok': sorted([[k, v.name] for k, v in m.value.items()])}
+        first = sorted([[k, v.name] for k, v in m.value.items()])
+        # the resolution is a function of the configuration and the port names: the user's selection objects are
+        # the same after a match, and the same (reused) configuration object resolves the same ports the same way
+        after = selection_snapshot(cfg)
+        if after != before:
+            return {'ok': first, 'selection_changed_by_match': {'before': before, 'after': after}}
+        try:
+            m2 = cfg.match(set(case['prov']), set(case['req']))
+            second = sorted([[k, v.name] for k, v in m2.value.items()])
+        except Exception as e:  # noqa
+            second = {'err': err_tag(e)}
+        if second != first:
+            return {'ok': first, 'second_match_of_same_configuration': second}
+        return {'ok': first}
+
+    def valid(self, case):
+        if case['op'] != 'build':
+            for k in ('psts', 'pmts', 'rsts', 'rmts'):
+                d = case.get('cfg', {}).get(k)
+                if not isinstance(d, dict) or ('w' in d and d['w'] not in ('all', 'none', 'remaining')) or \
+                        ('w' not in d and 'names' not in d):
+                    return False
+        return True
 
     def project(self, case, out):
         if case['op'] == 'build' and isinstance(out, dict) and 'ok' in out:
